@@ -72,6 +72,8 @@ func engineFor(prop string) Engine {
 		return e3Engine{}
 	case "C15", "C12":
 		return e2Engine{}
+	case "C06":
+		return e4aEngine{}
 	}
 	return nil
 }
